@@ -33,6 +33,13 @@ var carriers = []carrier{
 	{"pp", "**int", "ppint(x)", "**v"},
 }
 
+// joinCarriers: Join is also exercised on byte-like element types (element ids stay below 256)
+var joinCarriers = append(append([]carrier{}, carriers...),
+	carrier{"u8", "uint8", "uint8(x)", "int(v)"},
+	carrier{"NU8", "NU8", "NU8(x)", "int(v)"},
+	carrier{"rune", "rune", "rune(x)", "int(v)"},
+)
+
 func Run(cfg hx.Config) (*hx.Meta, error) {
 	meta := &hx.Meta{Property: "C17", Seed: cfg.Seed, Tier: cfg.Tier}
 	r := hx.NewRand(cfg.Seed)
@@ -70,7 +77,7 @@ func Run(cfg hx.Config) (*hx.Meta, error) {
 	}
 
 	var calls, drv strings.Builder
-	calls.WriteString("package main\n\ntype S struct {\n\tA int\n\tB string\n}\n\ntype NI int\n\n")
+	calls.WriteString("package main\n\ntype S struct {\n\tA int\n\tB string\n}\n\ntype NI int\n\ntype NU8 uint8\n\n")
 	drv.WriteString(driverHeader)
 	for _, in := range insts {
 		fn := "fmap_" + in.a.name + "_" + in.b.name
@@ -122,7 +129,7 @@ func init() {
 }
 `, b.name, fn, b.typ, b.enc, b.dec)
 	}
-	for _, a := range carriers {
+	for _, a := range joinCarriers {
 		fn := "join_" + a.name
 		fmt.Fprintf(&calls, "func %s(l [][]%s) []%s { return deriveJoin_%s(l) }\n", fn, a.typ, a.typ, a.name)
 		fmt.Fprintf(&drv, `
@@ -201,7 +208,7 @@ func init() {
 	if cfg.Tier == "thorough" {
 		njoin = 40
 	}
-	for _, a := range carriers {
+	for _, a := range joinCarriers {
 		fmt.Fprintf(&cases, "join-slices %s nil\n", a.name)
 		fmt.Fprintf(&cases, "join-slices %s ()\n", a.name)
 		fmt.Fprintf(&cases, "join-slices %s (nil)\n", a.name)
